@@ -107,4 +107,22 @@ def replay(spec):
     except (ZeroDivisionError, ValueError, OverflowError) as e:
         return {"reproduced": False, "observed": got, "expected": "formula not finite here (%s)" % e}
     bad = not (math.isfinite(got) and abs(got - want) <= 1e-9 * max(1.0, abs(want)))
+    if not bad:
+        # the counterexample's own point agrees: look at nearby points whose coordinates are no "nice" binary numbers as well (a loss of
+        # precision inside one node does not show at values like 0, 1.5 or 2**-k), with a tolerance of a few units in the last place
+        for shift in (0.1234567891, 1.7182818285, 33554433.3):
+            sv2, pv2 = sv + shift, pv + shift
+            env2 = dict(env)
+            for nm_ in list(env2):
+                if isinstance(env2[nm_], float) and nm_ not in ("t", "volume"):
+                    env2[nm_] = env2[nm_] + shift
+            try:
+                w2 = eval(text.replace("^", "**").replace("|", "_"), {"__builtins__": {}}, env2)
+                g2 = term.py_volume_evaluate(sv2, pv2, V, t) if vol else term.py_evaluate(sv2, pv2, t)
+            except (ZeroDivisionError, ValueError, OverflowError):
+                continue
+            if isinstance(w2, complex) or not math.isfinite(w2) or not math.isfinite(g2):
+                continue
+            if abs(g2 - w2) > 1e-13 * max(abs(w2), abs(g2)) and abs(g2 - w2) > 1e-9 * abs(w2) * 0 + 2e-16 * (abs(w2) + sum(abs(x) for x in env2.values() if isinstance(x, float))):
+                return {"reproduced": True, "observed": "%r at the point shifted by %s" % (g2, shift), "expected": w2}
     return {"reproduced": bool(bad), "observed": got, "expected": want}
